@@ -70,6 +70,8 @@ func runC18(w *World, r *Report) {
 	hrLockOwnersUsePointerReceivers(w, r, "R1", "lunar/")
 	hrAllLocksReleased(w, r, la, "R1", "lunar/")
 	hrDeepCopyAlwaysCopies(w, r, "R2")
+	hrExpireRearmed(w, r, "R2")
+	hrCfgIdentifiers(w, r, "R6")
 	hrGlobalRegistryUnderItsLock(w, r, la, "R1")
 	hrQueuedRequestIdentity(w, r, "R6")
 	// the response cache's size re-check reads the live fields under the lock (C12.R5)
